@@ -207,5 +207,6 @@ def register(ctx):
         ctx.ob("R18.4", "add_kill_switch|epoll_add", ok, "add_kill_switch registers the switch's own fd with epoll_add", fn.loc(0))
         ctx.ob("R18.4", "add_kill_switch|stored", ok2, "and stores the switch in self.kill_switch", fn.loc(0))
     from .fields import field_writers
+    from .util import writer_roots
     for w in field_writers(ctx.facts, srv.SRV, "kill_switch"):
-        ctx.ob("R18.4", "writers|%s" % w[0], w[0] in (S + "add_kill_switch", S + "new", S + "new_from_fd"), "writer of HttpServer.kill_switch: %s (%s)" % (w[0], w[3]), w[2])
+        ctx.ob("R18.4", "writers|%s" % w[0], writer_roots(ctx.facts, w[0]) <= {S + "add_kill_switch", S + "new", S + "new_from_fd"}, "writer of HttpServer.kill_switch: %s (%s)" % (w[0], w[3]), w[2])
